@@ -22,6 +22,9 @@
     return &v->data[i]; }
 
 VEC_DECL(vec_ulong, size_t)
+/* std::string: concrete character buffer plus an abstract identity `absid`
+ * used when the string only travels from a stream into a hash or a map key */
+typedef struct { char *data; size_t size; size_t cap; long absid; } str_t;
 VEC_DECL(vec_u8, unsigned char)
 
 #endif
